@@ -68,8 +68,16 @@ fn cases(tier: Tier) -> &'static Vec<Case> {
                         if withhold && e.is_none() {
                             continue;
                         }
-                        for pos in 0..2usize {
+                        let mut positions: Vec<usize> = vec![0, 1];
+                        if n == 5 || n == 1025 {
+                            // after a long history of plain exchanges on the connection
+                            positions.extend(history_lengths(deep(tier)));
+                        }
+                        for pos in positions {
                             for chunked in [false, true] {
+                                if chunked && pos > 1 {
+                                    continue;
+                                }
                                 let reads_all = matches!(plan.read, ReadPlan::ReadToEnd | ReadPlan::Sizes { limit: None, .. });
                                 // unread chunked bodies are the subject of C09, not of this property
                                 if chunked && (n == 0 || !reads_all || !full(tier) && pos == 1) {
@@ -91,6 +99,9 @@ fn cases(tier: Tier) -> &'static Vec<Case> {
                                 let mut first = Vec::new();
                                 if pos == 1 {
                                     first.extend_from_slice(&get("/before"));
+                                } else if pos > 1 {
+                                    script.push((0, Step::Send(history(pos))));
+                                    script.push((0, Step::Settle));
                                 }
                                 first.extend_from_slice(head.as_bytes());
                                 let touches = !matches!(plan.read, ReadPlan::None);
@@ -106,7 +117,7 @@ fn cases(tier: Tier) -> &'static Vec<Case> {
                                     script.push((0, Step::Settle));
                                 }
                                 let mut plans = Vec::new();
-                                if pos == 1 {
+                                for _ in 0..pos {
                                     plans.push(ReqPlan::simple());
                                 }
                                 plans.push(plan.clone());
@@ -180,7 +191,7 @@ impl Check for C18 {
     }
     fn rule(&self, tier: Tier) -> String {
         format!(
-            "Expect {{absent, 100-continue, 100-Continue, 100-CONTINUE}} x body length {:?} (Content-Length and chunked) x application program {:?}+partial-read x client {{sends the body immediately, withholds the body until it has parsed an interim 100 response (reactive client)}} x position 1..2 in a pipeline; {} conversations; oracle: exactly one interim 100 iff the program asks for the body of an expecting request, placed after the predecessor's final response and before its own; the withheld body is then read in full; none otherwise; non-trivial = expecting request whose body is asked for or withheld",
+            "Expect {{absent, 100-continue, 100-Continue, 100-CONTINUE}} x body length {:?} (Content-Length and chunked) x application program {:?}+partial-read x client {{sends the body immediately, withholds the body until it has parsed an interim 100 response (reactive client)}} x position 1..2 in a pipeline, and (lengths 5 and 1025, Content-Length) after a history of 64 / 100 / 1024 (thorough: 19 lengths from 63 to 4097) answered exchanges; {} conversations; oracle: exactly one interim 100 iff the program asks for the body of an expecting request, placed after the predecessor's final response and before its own; the withheld body is then read in full; none otherwise; non-trivial = expecting request whose body is asked for or withheld",
             if full(tier) { vec![0, 5, 1024, 1025, 3000] } else { vec![0, 5, 1025] },
             programs().iter().map(|p| p.0).collect::<Vec<_>>(), cases(tier).len()
         )
